@@ -194,7 +194,7 @@ def known_findings():
 # Component audit: what the evidence of a run must list (substring of a tlc_runs "what", minimum count).  A check whose run did not
 # execute one of its components is an ERROR (exit 2), never a silent pass: in the second seeded round a pasted block had made the
 # sequential replay of C17 unreachable and nothing reported it.
-_CONC_MODELS = [("YkConc program", 2), ("YkConc2 config", 3), ("YkConc3 config", 4), ("YkConc4 config", 3), ("YkConc5 config", 3), ("YkConc6 config", 2),
+_CONC_MODELS = [("YkConc program", 2), ("YkConc2 config", 3), ("YkConc3 config", 4), ("YkConc4 config", 3), ("YkConc5 config", 3), ("YkConc6 config", 2), ("YkConc7 config", 3),
                 ("step-level conformance of next layers", 4), ("step-level conformance of the interior split", 3),
                 ("step-level conformance of the root border split", 3), ("step-level conformance of border deletion", 3),
                 ("step-level conformance of split under a parent", 3), ("step-level conformance program", 2)]
